@@ -87,6 +87,9 @@ pub struct Gen<'a> {
     light_jets: Vec<usize>,
     jets_by_ret: HashMap<Ty, Vec<usize>>,
     pub forms: HashMap<&'static str, usize>,
+    /// probe leaves are compared with fresh witnesses `E<k>` instead of probe literals
+    pub probe_leaves_as_witness: bool,
+    pub probe_leaf_witnesses: Vec<(String, Ty)>,
 }
 
 const VAR_NAMES: &[&str] = &[
@@ -142,6 +145,8 @@ impl<'a> Gen<'a> {
             light_jets: light,
             jets_by_ret,
             forms: HashMap::new(),
+            probe_leaves_as_witness: false,
+            probe_leaf_witnesses: vec![],
         }
     }
 
@@ -636,11 +641,16 @@ impl<'a> Gen<'a> {
     pub fn probe(&mut self, e: &Expr, ty: &Ty, out: &mut Vec<Stmt>, level: usize) {
         self.budget -= 1;
         let assert_eq = |g: &mut Self, jet: &str, a: Expr, t: Ty| -> Stmt {
-            let h = g.prog.new_hole(t);
-            Stmt::Expr(Expr::call(
-                CallName::Assert,
-                vec![Expr::jet(jet, vec![a, Expr::Hole(h)])],
-            ))
+            let rhs = if g.probe_leaves_as_witness {
+                // compare with a witness `E<k>` instead of a literal (program compiled once,
+                // expected values supplied per execution)
+                let name = format!("E{}", g.probe_leaf_witnesses.len());
+                g.probe_leaf_witnesses.push((name.clone(), t));
+                Expr::Witness(name)
+            } else {
+                Expr::Hole(g.prog.new_hole(t))
+            };
+            Stmt::Expr(Expr::call(CallName::Assert, vec![Expr::jet(jet, vec![a, rhs])]))
         };
         match ty {
             Ty::U(n) if [1u16, 8, 16, 32, 64, 256].contains(n) => {
